@@ -1,6 +1,6 @@
 """C08 configuration for bin/check."""
 CFG = dict(
-    also=["C16"],   # completion order of concurrent fetches: decided by C16's model and gated fetcher
+    also=["C16", "C01:history"],   # completion order of concurrent fetches: C16's model and gated fetcher; "however often it has been run": C01's serializer model on edited-after-write histories
     level="proof", pfile="P_C08.v", rmod="R_C08", judge="judge_C08",
     technique="Coq proofs about comparator chains and map-range sites regenerated from the Go source (go/ast translators) + "
               "differential comparison of every comparator with its chain + repeated in-process generation of every format",
